@@ -1,5 +1,5 @@
 (* C08 — equality / inequality compare whole polynomials (Expr.v, ExprExec.v).  Statements only. *)
-From Coq Require Import ZArith List.
+From Coq Require Import ZArith List Bool.
 From NTT Require Import Expr ExprExec VecCompare.
 Local Open Scope Z_scope.
 
@@ -46,7 +46,7 @@ Print Assumptions C08_vector_lane_complementary.
    emitted with MemSem.find_if -- the offset of the first element satisfying the predicate, the end if none): the conversion of a plain
    polynomial to bool is true exactly when some stored word is non-zero, for every degree, number of moduli and contents, all limb types. *)
 From NTT Require PolyBoolSpec.
-From NTT.gen Require GenLoop.
+From NTT.gen Require GenLoop GenExprBool.
 Theorem C08_source_poly_bool : forall n nm data, (nm * n <= length data)%nat ->
   let any := Some (List.existsb (fun v => negb (Z.eqb v 0)) (List.firstn (nm * n) data)) in
   GenLoop.gen_poly_bool_u16 (Z.of_nat n) (Z.of_nat nm) data = any /\ GenLoop.gen_poly_bool_u32 (Z.of_nat n) (Z.of_nat nm) data = any /\ GenLoop.gen_poly_bool_u64 (Z.of_nat n) (Z.of_nat nm) data = any.
@@ -59,3 +59,26 @@ Example C08_source_nonvacuous :
   GenLoop.gen_poly_bool_u16 4 2 (0 :: 0 :: 0 :: 0 :: 0 :: 0 :: 0 :: 0 :: nil) = Some false /\ GenLoop.gen_poly_bool_u16 4 2 (0 :: 0 :: 0 :: 0 :: 0 :: 0 :: 5 :: 0 :: nil) = Some true /\
   GenLoop.gen_poly_bool_u16 4 2 (15360 :: 15360 :: 4096 :: 15360 :: 15360 :: 0 :: 0 :: 0 :: nil) = Some true.
 Proof. vm_compute. repeat split. Qed.
+Print Assumptions C08_source_nonvacuous.
+
+(* ops::expr<Op, ...>::operator bool() OF THE SOURCE -- the conversion behind `a == b`, `a != b` and `if (a - b)` -- read from include/nfl/ops.hpp on
+   every run at 27 instantiations (eqmod, neqmod, an arithmetic operator; three limb types; serial, SSE, AVX2), each with the polarity
+   bool_requires_all<Op>::value and the vector width the source gives it (gen/GenExprBool.v over ExprSem.scan: the loop nest with its early
+   return): `==` is true exactly when ALL degree * nmoduli values of the comparison are non-zero, the others exactly when SOME value is,
+   whatever the vector width, for every degree (a multiple of 16: every vector width divides it), number of moduli and contents. *)
+From NTT Require ExprBoolSpec.
+Theorem C08_source_expr_bool : ExprBoolSpec.expr_bool_statement.
+Proof. exact ExprBoolSpec.source_expr_bool. Qed.
+Print Assumptions C08_source_expr_bool.
+(* the statement read in full for one of them *)
+Theorem C08_source_expr_bool_eq_avx2_u16 : forall degree nm val, 0 <= degree < 2 ^ 62 -> 0 <= nm < 2 ^ 62 -> (16 | degree) ->
+  GenExprBool.gen_expr_bool_eq_avx2_u16 degree nm val
+  = Some (List.forallb (fun v => negb (Z.eqb v 0)) (List.concat (List.map (fun cm => List.map (fun i => val (Z.of_nat cm) (0 + Z.of_nat i)) (List.seq 0 (Z.to_nat degree))) (List.seq 0 (Z.to_nat nm))))).
+Proof. exact (proj1 (proj2 (proj2 (proj2 (proj2 (proj2 (proj2 (proj1 ExprBoolSpec.source_expr_bool)))))))). Qed.
+Print Assumptions C08_source_expr_bool_eq_avx2_u16.
+Example C08_source_expr_bool_nonvacuous :
+  let a := fun cm i => cm * 100 + i in let b := fun cm i => if (cm =? 2) && (i =? 31) then 7 else cm * 100 + i in
+  GenExprBool.gen_expr_bool_eq_avx2_u16 32 3 (ExprBoolSpec.eq_val a a) = Some true /\ GenExprBool.gen_expr_bool_eq_avx2_u16 32 3 (ExprBoolSpec.eq_val a b) = Some false /\
+  GenExprBool.gen_expr_bool_neq_sse_u64 32 3 (ExprBoolSpec.neq_val a a) = Some false /\ GenExprBool.gen_expr_bool_neq_sse_u64 32 3 (ExprBoolSpec.neq_val a b) = Some true /\
+  GenExprBool.gen_expr_bool_eq_avx2_u16 8 3 (ExprBoolSpec.eq_val a a) = None.
+Proof. exact ExprBoolSpec.expr_bool_nonvacuous. Qed.
